@@ -100,6 +100,17 @@ func codeLiterals(src string, ts bool) []string {
 				out = append(out, src[i+1:min(j, n)])
 			}
 			i = j + 1
+		case !ts && strings.HasPrefix(src[i:], "http.Method"):
+			// the net/http verb constants stand for their string values
+			j := i + len("http.Method")
+			k := j
+			for k < n && (src[k] >= 'a' && src[k] <= 'z' || src[k] >= 'A' && src[k] <= 'Z') {
+				k++
+			}
+			if v, ok := map[string]string{"Get": "GET", "Post": "POST", "Put": "PUT", "Delete": "DELETE", "Patch": "PATCH", "Head": "HEAD", "Options": "OPTIONS"}[src[j:k]]; ok {
+				out = append(out, v)
+			}
+			i = k
 		default:
 			i++
 		}
